@@ -84,7 +84,8 @@ fn probe<CF: CostFunction<Main, Cost = u64>>(eg: &EGraph<Main>, cf: CF, cf2: CF,
             continue;
         }
         // extract under a random renaming of the arguments
-        let names: Vec<u32> = vec![40, 44, 48, 52, 56, 60];
+        // one distinct numeric name per parameter (classes can have many parameters: an invocation must stay injective)
+        let names: Vec<u32> = (0..idn.m.len().max(6) as u32).map(|k| 40 + 4 * k).collect();
         let mut img = names.clone();
         rng.shuffle(&mut img);
         let m: SlotMap = idn.m.iter().enumerate().map(|(k, (key, v))| (key, if rng.chance(1, 2) { slot_of_code(img[k % img.len()]) } else { v })).collect();
